@@ -120,6 +120,15 @@ def _witnesses():
              tables={"d": w}, name="window_partition_permuted"),
         case([{"call": "order_rows", "cols": ["x"], "reverse": [], "limit": 0}, ext([("a", "x + 1")])],
              name="order_limit_zero_then_extend"),
+        # an eliminated order_rows in front of every binary / labelled step: all arguments of the step survive
+        case([{"call": "order_rows", "cols": ["x"], "reverse": [], "limit": None},
+              {"call": "concat_rows", "b": {"table": "d", "steps": []}, "id_column": "src", "a_name": "left", "b_name": "right"}],
+             name="order_then_concat_labels"),
+        case([{"call": "order_rows", "cols": ["x"], "reverse": [], "limit": None},
+              {"call": "natural_join", "b": {"table": "r"}, "on": [["x", "z"]], "jointype": "left", "check": False}],
+             tables={"d": d, "r": r}, name="order_then_join_diff_keys"),
+        # a select naming a column the step below removed
+        case([{"call": "drop_columns", "cols": ["y"]}, {"call": "select_columns", "cols": ["g", "y"]}], name="select_dropped_column"),
     ]
     return out
 
